@@ -2919,6 +2919,171 @@ def coalesce_copies(body, facts):
     return count
 
 
+def _alpha_equal(a, b, ren):
+    """structural equality of two statements / expressions up to the names of the locals they declare (ren: id of a -> id of b)"""
+    if isinstance(a, list):
+        return isinstance(b, list) and len(a) == len(b) and all(_alpha_equal(x, y, ren) for x, y in zip(a, b))
+    if not isinstance(a, dict):
+        return a == b
+    if not isinstance(b, dict) or a.get("k") != b.get("k"):
+        return False
+    if a.get("k") == "Ref" and a.get("d") == "local":
+        return b.get("d") == "local" and ren.get(a.get("id"), a.get("id")) == b.get("id")
+    if a.get("k") == "Decl":
+        va, vb = a.get("vars", []), b.get("vars", [])
+        if len(va) != len(vb):
+            return False
+        for x, y in zip(va, vb):
+            if x.get("t") != y.get("t") or x.get("n") != y.get("n") or (x.get("init") is None) != (y.get("init") is None):
+                return False
+            if x.get("init") is not None and not _alpha_equal(x["init"], y["init"], ren):
+                return False
+            ren[x.get("id")] = y.get("id")
+        return True
+    for k_ in set(a) | set(b):
+        if k_ in ("l", "tw", "id") and not (k_ == "id" and a.get("k") == "Ref" and a.get("d") == "param"):
+            continue
+        if k_ not in a or k_ not in b or not _alpha_equal(a[k_], b[k_], ren):
+            return False
+    return True
+
+
+def _rename_locals(n, ren):
+    for x in walk(n):
+        if x.get("k") == "Ref" and x.get("d") == "local" and x.get("id") in ren:
+            x["id"] = ren[x["id"]]
+        elif x.get("k") == "Decl":
+            for v in x.get("vars", []):
+                if v.get("id") in ren:
+                    v["id"] = ren[v["id"]]
+        elif x.get("k") == "RangeFor" and isinstance(x.get("var"), dict) and x["var"].get("id") in ren:
+            x["var"]["id"] = ren[x["var"]["id"]]
+
+
+def _invariant_in(c, regions, facts, memo):
+    """the pure expression c reads nothing that executing the regions can write"""
+    if not is_pure(c, facts):
+        return False
+    ins = []
+    for x in walk(c):
+        if x.get("k") in ("Member", "Ref"):
+            p = path(x)
+            if p is not None:
+                ins.append(tuple(p))
+    if any(x.get("k") in ("Call", "MCall", "OpCall") and path(x) is None for x in walk(c)):
+        return False
+    for r in regions:
+        for n in walk(r):
+            try:
+                ws = node_writes(n, facts, memo)
+            except RecursionError:
+                return False
+            for (wp, kind) in ws:
+                if wp is None:
+                    return False
+                wp = tuple(wp)
+                for ip in ins:
+                    m = min(len(wp), len(ip))
+                    if wp[:m] == ip[:m]:
+                        return False
+    return True
+
+
+def reswitch_loops(body, facts, memo):
+    """N14a (loop unswitching undone): `if (c) { for (x : L) B1; return r; }  for (x : L) B2; return r;` with c unchanged by both
+    loops is `for (x : L) { if (c) B1 else B2 }  return r;` - the same statements run for the same elements in the same order.
+    Returns the number of loop pairs merged."""
+    count = 0
+    for b in [x for x in walk(body) if x.get("k") == "Block"]:
+        sts = b.get("s", [])
+        for i, st in enumerate(sts):
+            if not (isinstance(st, dict) and st.get("k") == "If" and st.get("else") is None and st.get("condvar") is None):
+                continue
+            th = [x for x in ir.stmts(st["then"]) if not (isinstance(x, dict) and x.get("k") == "Null")]
+            rest = [x for x in sts[i + 1:] if not (isinstance(x, dict) and x.get("k") == "Null")]
+            if len(th) != 2 or len(rest) != 2 or th[0].get("k") != "RangeFor" or rest[0].get("k") != "RangeFor" or \
+                    th[1].get("k") != "Return" or rest[1].get("k") != "Return":
+                continue
+            l1, l2 = th[0], rest[0]
+            v1, v2 = l1.get("var") or {}, l2.get("var") or {}
+            if ir.show(l1.get("range")) != ir.show(l2.get("range")) or v1.get("t") != v2.get("t") or "id" not in v1 or "id" not in v2:
+                continue
+            if (th[1].get("e") is None) != (rest[1].get("e") is None) or (th[1].get("e") is not None and not _alpha_equal(th[1]["e"], rest[1]["e"], {})):
+                continue
+            if not _invariant_in(st["cond"], [l1.get("body"), l2.get("body")], facts, memo) or not is_pure(l1.get("range"), facts):
+                continue
+            _rename_locals(l1["body"], {v1["id"]: v2["id"]})
+            l2["body"] = {"k": "Block", "l": l2.get("l"), "s": [
+                {"k": "If", "l": st.get("l"), "cond": st["cond"], "then": l1["body"], "else": l2["body"]}]}
+            sts[i] = {"k": "Null"}
+            count += 1
+    return count
+
+
+def merge_branch_ends(body, facts):
+    """N14b (cross-jumping): statements that both branches of an If begin with - equal up to the names of the locals they declare,
+    and not able to change the condition - are executed before the If on either edge; statements both branches end with are
+    executed after it (when neither branch leaves early).  `if (c) { A; X; Z } else { A; Y; Z }` is `A; if (c) X else Y; Z`.
+    Returns the number of statements moved."""
+    moved = 0
+    memo = {}
+    for b in [x for x in walk(body) if x.get("k") == "Block"]:
+        sts = b.get("s", [])
+        i = 0
+        while i < len(sts):
+            st = sts[i]
+            if not (isinstance(st, dict) and st.get("k") == "If" and st.get("else") is not None and st.get("condvar") is None and
+                    isinstance(st.get("then"), dict) and st["then"].get("k") == "Block" and isinstance(st["else"], dict) and st["else"].get("k") == "Block"):
+                i += 1
+                continue
+            ta = [x for x in st["then"]["s"] if not (isinstance(x, dict) and x.get("k") == "Null")]
+            ea = [x for x in st["else"]["s"] if not (isinstance(x, dict) and x.get("k") == "Null")]
+            head = []
+            ren = {}
+            while ta and ea and _alpha_equal(ta[0], ea[0], ren) and _invariant_in(st["cond"], [ta[0]], facts, memo) and \
+                    not any(y.get("k") in ("Return", "Break", "Continue", "Goto", "Label", "Case", "Default") for y in walk(ta[0])):
+                head.append(ea.pop(0))
+                ta.pop(0)
+            # the then-branch goes on with the else-branch's names for what the moved declarations declare
+            if head and ren:
+                for x in ta:
+                    _rename_locals(x, ren)
+            tail = []
+            if not ir.always_leaves(st["then"]) and not ir.always_leaves(st["else"]):
+                while ta and ea:
+                    r2 = dict(ren)
+                    # a common tail must not mention locals declared in the (different) middles
+                    mid_decl = set(v.get("id") for m_ in ta[:-1] + ea[:-1] for y in walk(m_) if y.get("k") == "Decl" for v in y.get("vars", []))
+                    if not _alpha_equal(ta[-1], ea[-1], r2) or r2 != ren or \
+                            any(y.get("k") == "Ref" and y.get("d") == "local" and y.get("id") in mid_decl for y in walk(ea[-1])) or \
+                            any(y.get("k") in ("Decl",) for y in walk(ea[-1])):
+                        break
+                    tail.insert(0, ea.pop())
+                    ta.pop()
+            if not head and not tail:
+                i += 1
+                continue
+            st["then"]["s"], st["else"]["s"] = ta, ea
+            new = list(head)
+            if ta or ea:
+                if not ta:
+                    c0 = ir.unwrap_all_casts(st["cond"])
+                    st["cond"] = c0["e"] if isinstance(c0, dict) and c0.get("k") == "Un" and c0.get("op") == "!" else \
+                        {"k": "Un", "op": "!", "e": st["cond"], "t": "bool", "l": st.get("l")}
+                    st["then"], st["else"] = st["else"], None
+                    st.pop("else", None)
+                elif not ea:
+                    st.pop("else", None)
+                new.append(st)
+            elif not is_pure(st["cond"], facts):
+                new.append(st)
+            new.extend(tail)
+            sts[i:i + 1] = new
+            moved += len(head) + len(tail)
+            i += len(new)
+    return moved
+
+
 def merge_adjacent_result(body, facts):
     """`T x = f(..); lhs = x;` with x used nowhere else is `lhs = f(..);` - also when f has effects, provided the target is a
     plain path that neither mentions x nor is touched by evaluating the call (the right operand of an assignment is
@@ -4334,6 +4499,11 @@ def normalise(facts, do_inline=True, do_propagate=True):
                     if not nf_:
                         break
                     stats["stores_split"] = stats.get("stores_split", 0) + split_stores(f["body"], facts)
+                    _tidy(f["body"])
+                nl_ = reswitch_loops(f["body"], facts, memo)
+                if nl_:
+                    stats["loops_reswitched"] = stats.get("loops_reswitched", 0) + nl_
+                    stats["branch_ends_merged"] = stats.get("branch_ends_merged", 0) + merge_branch_ends(f["body"], facts)
                     _tidy(f["body"])
                 ns_ = sink_refined_stores(f["body"], facts)
                 if ns_:
